@@ -164,6 +164,7 @@ func init() {
 			items = append(items, callsItems(tier, "C01", "clean-despite-violation", "panic")...)
 			// "...or an earlier call" on the same schema object with another destination type
 			items = append(items, layoutItems(tier, "C01", "issues-missing", "panic")...)
+			items = append(items, preprocItem("C01", "clean-despite-violation", "panic"))
 			items = append(items, Item{Name: "number-bound-chains", MaxDevs: -1, Run: c01NumberChainScenario})
 			items = append(items, Item{Name: "length-and-instant-bound-chains", MaxDevs: -1, Run: c01OtherChainScenario})
 			return append(items, Item{Name: "builtin-tests-on-long-values", MaxDevs: -1, Run: c01BuiltinLongScenario})
